@@ -6,13 +6,15 @@ use crate::report::{Ctx, Tier};
 use crate::run::run_pure;
 use gamedig_id_tests::{test_game_name_rules, test_single_game_rule};
 
-const TOKENS: [&str; 22] = [
+const TOKENS: [&str; 24] = [
     "Dead", "cells", "of", "The", "S.T.A.L.K.E.R.", "IV", "XIV", "MIX", "2", "16", "2003", "D-Day", "Half-Life", "'44-'45", "Isaac:", "4-Ever",
     // words gluing digits and letters (split by the checker where digits and letters meet)
     "3D", "Quake4", "4x4",
     // (the last three, bracketed words inside a name and a three-part dashed number, are used with names of up to three
     // tokens in the quick tier)
     "(Remastered)", "(1999)", "1-2-3",
+    // a hyphenated compound whose first part glues letters and a digit
+    "F1-Racing", "R2-D2",
 ];
 const CORE_TOKENS: usize = 19;
 // (short bracket contents too: an edition tag can be shorter than a year)
